@@ -147,10 +147,10 @@ def run_tlc(module, cfg, env=None, workers=1, timeout=1800, mode="bfs", seed=Non
     return res
 
 
-def run_harness(cases_path, trace_path, timeout=3600):
+def run_harness(cases_path, trace_path, timeout=3600, binary=None):
     t0 = time.time()
     try:
-        p = subprocess.run([HARNESS, "replay", cases_path, trace_path], stdout=subprocess.PIPE,
+        p = subprocess.run([binary or HARNESS, "replay", cases_path, trace_path], stdout=subprocess.PIPE,
                            stderr=subprocess.STDOUT, text=True, timeout=timeout)
     except subprocess.TimeoutExpired:
         raise ToolError("harness timeout")
@@ -207,7 +207,8 @@ def match_finding(findings, prop, ev, failed):
 class Stage:
     """one generator -> harness -> validator pass"""
     def __init__(self, name, gen, trace, mc=(), env=None, gen_workers=1, trace_env=None,
-                 required=(), simulate=None, gen_timeout=1800, trace_timeout=3600, shards=1):
+                 required=(), simulate=None, gen_timeout=1800, trace_timeout=3600, shards=1,
+                 executor=None, harness_bin=None, stop_on_violation=False):
         self.name = name
         self.gen = gen              # (module, cfg)
         self.trace = trace          # (module, cfg)
@@ -220,6 +221,9 @@ class Stage:
         self.gen_timeout = gen_timeout
         self.trace_timeout = trace_timeout
         self.shards = shards
+        self.executor = executor            # callable(cases_path, trace_path) instead of the Rust harness
+        self.harness_bin = harness_bin      # alternative harness binary (C20: serde build)
+        self.stop_on_violation = stop_on_violation
 
 
 class Outcome:
@@ -235,34 +239,44 @@ class Outcome:
         self.extra = {}
 
 
-def validate_trace(st, prop, trace_path, out, evs_by_id, tag):
-    """run the trace validator on one trace file; returns list of (id, failed)"""
+def validate_trace(st, prop, trace_path, tag):
+    """run the trace validator on one trace file; returns a result dict (merged by the caller)"""
     env = dict(st.env)
     env.update(st.trace_env)
     env["TRACE"] = trace_path
     env["PROP"] = prop
     r = run_tlc(st.trace[0], st.trace[1], env=env, workers=1, deque=True,
                 timeout=st.trace_timeout, tag=tag)
-    out.states += r.distinct
-    out.transitions += r.generated
-    cov = None
-    bads = []
+    res = {"states": r.distinct, "transitions": r.generated, "bads": [], "cov": None, "info": []}
     for k, v in r.lines:
         if k == "COV":
-            cov = v
+            res["cov"] = v
         elif k == "BAD":
-            bads.append(v)
+            res["bads"].append(v)
         elif k == "INFO":
-            out.extra.setdefault("info", []).append(v)
-    if cov is None:
+            res["info"].append(v)
+    if res["cov"] is None:
         raise ToolError(f"validator {st.trace[0]} did not consume the whole trace:\n{r.raw_tail}")
+    return res
+
+
+def merge_validation(st, out, res):
+    out.states += res["states"]
+    out.transitions += res["transitions"]
+    cov = res["cov"]
     for c, n in (cov.get("cov") or {}).items():
         out.cov[c] = out.cov.get(c, 0) + n
     out.events += cov.get("events", 0)
     for k, v in cov.items():
         if k not in ("cov", "events", "bad"):
-            out.extra[f"{st.name}.{k}"] = v
-    return bads
+            key = f"{st.name}.{k}"
+            if isinstance(v, (int, float)) and isinstance(out.extra.get(key), (int, float)):
+                out.extra[key] = max(out.extra[key], v)
+            else:
+                out.extra[key] = v
+    if res["info"]:
+        out.extra.setdefault("info", []).extend(res["info"][:20])
+    return res["bads"]
 
 
 def run_stage(st, prop, tier, seed, out, replay=None):
@@ -305,7 +319,10 @@ def run_stage(st, prop, tier, seed, out, replay=None):
     else:
         shutil.copy(replay, cases_path)
         out.cases += sum(1 for _ in open(cases_path))
-    run_harness(cases_path, trace_path)
+    if st.executor is not None:
+        st.executor(cases_path, trace_path)
+    else:
+        run_harness(cases_path, trace_path, binary=st.harness_bin)
     evs = {}
     with open(trace_path) as f:
         for line in f:
@@ -322,8 +339,19 @@ def run_stage(st, prop, tier, seed, out, replay=None):
         lines = open(trace_path).read().splitlines()
         per = (len(lines) + st.shards - 1) // st.shards
         procs = []
-        for i in range(st.shards):
-            part = lines[i * per:(i + 1) * per]
+        # cut only where a new behaviour starts (events carrying "first": true), so that the
+        # validator's carried state is reset at the beginning of every shard
+        cuts = [0]
+        pos = per
+        while pos < len(lines):
+            while pos < len(lines) and '"first":false' in lines[pos]:
+                pos += 1
+            if pos < len(lines):
+                cuts.append(pos)
+            pos += per
+        cuts.append(len(lines))
+        for i in range(len(cuts) - 1):
+            part = lines[cuts[i]:cuts[i + 1]]
             if not part:
                 continue
             pth = f"{base}.trace.{i}.ndjson"
@@ -331,14 +359,14 @@ def run_stage(st, prop, tier, seed, out, replay=None):
             procs.append(pth)
         from concurrent.futures import ThreadPoolExecutor
         with ThreadPoolExecutor(max_workers=min(8, len(procs))) as ex:
-            futs = [ex.submit(validate_trace, st, prop, pth, out, evs, f"{prop}.tr{i}")
+            futs = [ex.submit(validate_trace, st, prop, pth, f"{prop}.tr{i}")
                     for i, pth in enumerate(procs)]
             for fu in futs:
-                bads += fu.result()
+                bads += merge_validation(st, out, fu.result())
         for pth in procs:
             os.remove(pth)
     else:
-        bads = validate_trace(st, prop, trace_path, out, evs, f"{prop}.tr")
+        bads = merge_validation(st, out, validate_trace(st, prop, trace_path, f"{prop}.tr"))
     for b in bads:
         failed = [c for c in b["failed"] if c.startswith(prop + ".")]
         if failed:
@@ -408,7 +436,11 @@ def main(argv, registry):
             nm = os.path.basename(replay).split(".")
             stages = [s for s in stages if len(nm) > 1 and s.name == nm[1]] or stages[:1]
         for st in stages:
+            nbad0 = len(out.bad)
             run_stage(st, prop, tier, seed, out, replay=replay)
+            if st.stop_on_violation and len(out.bad) > nbad0:
+                log(f"[stop] stage {st.name} rejected events; later stages depend on it and are skipped")
+                break
         for post in spec.get("post", []):
             post(tier, seed, out)
     except ToolError as e:
